@@ -160,7 +160,7 @@ STREAM = {
     "Madgwick/IMU": ("Madgwick/IMU", {"gain": 0.5}), "Madgwick/MARG": ("Madgwick/MARG", {"gain": 0.5}), "Madgwick/MARG/default": ("Madgwick/MARG", {}),
     "Mahony/IMU": ("Mahony/IMU", {}), "Mahony/MARG": ("Mahony/MARG", {}), "EKF/IMU": ("EKF/IMU/NED", {}), "EKF/MARG": ("EKF/MARG/NED", "dip"),
     "AQUA/IMU": ("AQUA/IMU", {}), "AQUA/MARG": ("AQUA/MARG", {}), "AQUA/MARG/adaptive": ("AQUA/MARG/adaptive", {}),
-    "Fourati": ("Fourati", "dip"), "ROLEQ": ("ROLEQ/NED", "dip"),
+    "Fourati": ("Fourati", "dip"), "ROLEQ": ("ROLEQ/NED", "dip"), "UKF": ("UKF", {}),
 }
 
 
